@@ -41,6 +41,28 @@ WIRE = {
     "nextnodata": json.dumps({"type": "next", "id": OPID, "payload": {"errors": []}}),
 }
 PAYLOAD = {"next1": D1, "next2": D2}
+# frames outside the protocol model: no reference expectation, only "the OpenTelemetry variant behaves identically" (differential)
+WIRE_X = {
+    "next_null_data_with_errors": json.dumps({"type": "next", "id": OPID, "payload": {"data": None, "errors": [{"message": "partial"}]}}),
+    "next_data_and_errors": json.dumps({"type": "next", "id": OPID, "payload": {"data": D1, "errors": [{"message": "partial"}]}}),
+    "next_null_data": json.dumps({"type": "next", "id": OPID, "payload": {"data": None}}),
+    "next_other_id": json.dumps({"type": "next", "id": "someone-else", "payload": {"data": D2}}),
+    "next_extensions": json.dumps({"type": "next", "id": OPID, "payload": {"data": D1, "extensions": {"t": 1}}}),
+    "next_no_payload": json.dumps({"type": "next", "id": OPID}),
+    "complete_other_id": json.dumps({"type": "complete", "id": "someone-else"}),
+    "error_empty_list": json.dumps({"type": "error", "id": OPID, "payload": []}),
+    "error_not_list": json.dumps({"type": "error", "id": OPID, "payload": {"message": "x"}}),
+    "error_no_payload": json.dumps({"type": "error", "id": OPID}),
+    "ping_payload": json.dumps({"type": "ping", "payload": {"a": 1}}),
+    "pong_payload": json.dumps({"type": "pong", "payload": {"a": 1}}),
+    "ack_again": json.dumps({"type": "connection_ack", "payload": {"x": 1}}),
+    "type_null": json.dumps({"type": None}),
+    "json_array": "[]",
+    "json_string": '"next"',
+    "empty_text": "",
+    "bytes_frame": b'{"type": "ping"}',
+}
+WIRE.update(WIRE_X)
 
 
 # ------------------------------------------------------------------ TLC
@@ -362,6 +384,49 @@ def replay_sequence(variant, st, loop):
     return probs
 
 
+def differential(vs, loop, part=0, parts=1):
+    """Frame sequences over the extended alphabet x variable configurations: every bundled variant must behave exactly like the plain client
+    (frames sent, byte for byte after JSON decoding; outcome; exception type and message; values yielded)."""
+    import itertools
+    probs, runs = [], 0
+    alphabet = list(WIRE_X) + ["next1", "ping"]
+    seqs = [("ack", a, "complete") for a in alphabet] + [("ack", a, b, "complete") for a, b in itertools.product(alphabet, repeat=2)] + [(a,) for a in WIRE_X]
+    unset = clients.dep_module("base_model").UNSET
+    var_cfgs = [("vars_scalar", {"n": 5}), ("vars_all_unset", {"n": unset, "data": unset}), ("vars_none", None), ("vars_empty", {})]
+    bundled = {k: v for k, v in vs.items() if k.startswith("bundled:")}
+    ref_name = "bundled:async/none"
+    for vl, variables in var_cfgs:
+        for si, seq in enumerate(seqs if vl == "vars_scalar" else seqs[:len(alphabet)]):
+            if si % parts != part:
+                continue
+            obs = {}
+            for vname, (mod, mk, decode) in bundled.items():
+                fc = FakeConnect(list(seq))
+                old = mod.ws_connect
+                mod.ws_connect = fc
+                umod = sys.modules[mod.__name__]
+                old_uuid = getattr(umod, "uuid4", None)
+                umod.uuid4 = lambda: OPID
+                try:
+                    yielded, outcome, exc = loop.run_until_complete(drive(mk(fc, {"variables": variables}), fc))
+                finally:
+                    mod.ws_connect = old
+                    if old_uuid is not None:
+                        umod.uuid4 = old_uuid
+                sent = []
+                for m in fc.ws.sent:
+                    try:
+                        sent.append(json.loads(m))
+                    except Exception:  # noqa
+                        sent.append(repr(m))
+                obs[vname] = (sent, outcome, type(exc).__name__ if exc else None, yielded)
+                runs += 1
+            for vname, o in obs.items():
+                if o != obs[ref_name]:
+                    probs.append(("variants_differ", vname, vl, list(seq), f"{vname}: sent/outcome/exception/yielded {json.dumps(o, default=str)[:300]} but {ref_name}: {json.dumps(obs[ref_name], default=str)[:300]}"))
+    return probs, runs
+
+
 def worker(case):
     pkg_root, pkg_names, states, cfg_mode = case
     loop = asyncio.new_event_loop()
@@ -377,6 +442,13 @@ def worker(case):
             for vl, bv, gk, wv in variable_configs(unset, m.In):
                 cfgs.append(dict(c, label=f"{l}/{vl}", variables=bv, gen_kwargs=gk, wire_variables=wv))
             cfgs.append(dict(c, label=l))
+    if cfg_mode.startswith("differential"):
+        part, parts = map(int, cfg_mode.split(":")[1].split("/"))
+        probs, runs = differential(vs, loop, part, parts)
+        res["replays"] += runs
+        res["problems"].extend(probs)
+        loop.close()
+        return res
     for st in states:
         for vname, v in vs.items():
             if cfg_mode == "product":
@@ -518,6 +590,7 @@ def main(tier):
         cases = [(pkg_root, pkg_names, ch, "default") for ch in chunks if ch]
         small = [s for s in states if len(s["hist"]) <= (2 if tier == "quick" else 3)]
         cases += [(pkg_root, pkg_names, small[i::8], "product") for i in range(8) if small[i::8]]
+        cases += [(pkg_root, pkg_names, [], f"differential:{i}/12") for i in range(12)]
         replays = 0
         for (st, r) in pool.run_cases(worker, cases, timeout=3000):
             if st != "ok":
@@ -563,8 +636,10 @@ def main(tier):
             "configuration_product_states": len(small),
             "real_library_scripts_bound": bound_scripts,
             "exhaustive": True,
+            "differential_frames": sorted(WIRE_X),
             **real_summary,
-        }, assumptions=["frames outside the stated alphabet (JSON non-objects, next with null data) are not modelled",
+        }, assumptions=["frames outside the stated alphabet (JSON non-objects, next with null data, foreign ids, payload variants ...) have no reference expectation in the model; "
+                                     "for them only the statement's 'the OpenTelemetry variant behaves identically' is decided (differential pass over all sequences of <= 2 such frames)",
                         "only the installed websockets version can be exercised; the required range >=14.2 cannot be enumerated offline",
                         "socket close before the ack is not specified by the statement and not modelled"])
     finally:
@@ -578,6 +653,17 @@ def replay(path):
     if "frames" not in case:
         print("replay of real-library findings: run ./check C13")
         return 1
+    if rec["clause"] == "variants_differ":
+        work = genpkg.scratch_dir("verif-c13-")
+        try:
+            names = gen_packages(work)
+            stt, r = pool.run_forked(worker, (work, names, [], "differential:0/1"), timeout=600)
+            hits = [p for p in r["problems"] if p[1] == case["variant"] and p[3] == case["frames"] and p[2] == case.get("config")] if stt == "ok" else [r]
+            for h in hits[:3]:
+                print(h)
+            return 1 if hits else 0
+        finally:
+            shutil.rmtree(work, ignore_errors=True)
     sent, yielded, outcome = expected_for(case["frames"])
     st = {"hist": case["frames"], "sent": sent, "yielded": [k for k in case["frames"] if k in PAYLOAD][:len(yielded)], "outcome": outcome}
     if outcome == "Running":
